@@ -228,11 +228,15 @@ structure WriteFile where
 
 /-- phase 2 for one store: every entry is written with the bytes of its cell.  `none` stands for
     the `expect("internal error: should have been checked")` panic. -/
-def writesOf (s : Store) : Option (List WriteFile) :=
-  s.items.mapM fun e =>
-    match e.2 with
-    | .loaded b => some ⟨s.kind, e.1, b⟩
-    | _ => none
+def writesOfItems (kind : Kind) : Items → Option (List WriteFile)
+  | [] => some []
+  | (k, .loaded b) :: r =>
+    match writesOfItems kind r with
+    | some ws => some (⟨kind, k, b⟩ :: ws)
+    | none => none
+  | _ :: _ => none
+
+def writesOf (s : Store) : Option (List WriteFile) := writesOfItems s.kind s.items
 
 inductive SaveOutcome
   | refused (k : Key)                    -- `InvalidStoreEntry`, returned before any effect
